@@ -514,6 +514,13 @@ func (rm *RegistrationManager) NewRegistrationC2SWrapper(c2sw *pb.C2SWrapper, in
 		return nil, fmt.Errorf("invalid registration address length %d", l)
 	}
 
+	if includeV6 && reg.PhantomIp.To4() != nil {
+		// The registration built for the client's IPv6 support is only gated on IPv6 being enabled;
+		// an IPv4 address in the response's ipv6addr field (4 bytes or v4-mapped) would put an IPv4
+		// phantom past the IPv4 switch and would be shared with peers a second time.
+		return nil, fmt.Errorf("IPv4 phantom address for the IPv6 registration")
+	}
+
 	if reg.PhantomIp.To4() != nil && clientAddr.To4() == nil {
 		// This can happen if the client chooses from a set that contains no
 		// ipv6 options even if include ipv6 is enabled they will get ipv4.
